@@ -21,6 +21,7 @@ parents  none   no parent
 profiles plain | adv (adversarial values) | advkey (adversarial keys too) | mixed (non-string qualifier values) | sparse
 """
 import random
+import uuid
 
 from harness import gen_collections as G
 
@@ -29,6 +30,7 @@ PARENTS = ["none", "bare", "chrom", "chromnoid", "chunk", "chunkrev"]
 PROFILES = ["plain", "adv", "advkey", "mixed", "sparse"]
 GENOME_LEN = 160
 SEQNAME = "chr1"
+SEQUENCE_GUID = "5e9c0b1a-7d2f-4c3e-9a41-0123456789ab"
 
 
 def _rng(*key):
@@ -185,7 +187,10 @@ def gen_ac(rng, profile, shape=None):
     d = dict(genes=genes, feature_collections=fcs, variant_collections=vcs, name=_ident(rng, profile, "AC"),
              id=_ident(rng, profile, "acid"), qualifiers=gen_quals(rng, profile, 2), sequence_name=SEQNAME,
              sequence_path=rng.choice([None, "/x/y.fa"]), start=None, end=None,
-             completely_within=rng.choice([None, None, True, False]), shape=shape)
+             completely_within=rng.choice([None, None, True, False]), shape=shape,
+             # free metadata: the same identifier on every collection that carries one (as for many collections cut from
+             # one assembly record)
+             sequence_guid=rng.choice([None, SEQUENCE_GUID, SEQUENCE_GUID]))
     if rng.random() < 0.3 and (genes or fcs or vcs):
         lo, hi = span("ac", d)
         d["start"] = rng.randint(0, lo)
@@ -406,7 +411,8 @@ def build(kind, d, parent, L=None):
             variant_collections=[build("vc", v, parent, L) for v in d["variant_collections"]] or None,
             name=d["name"], id=d["id"], sequence_name=d["sequence_name"], sequence_path=d["sequence_path"],
             qualifiers=_copyq(d["qualifiers"]), start=d["start"], end=d["end"],
-            completely_within=d["completely_within"], parent_or_seq_chunk_parent=parent)
+            completely_within=d["completely_within"], parent_or_seq_chunk_parent=parent,
+            sequence_guid=(uuid.UUID(d["sequence_guid"]) if d.get("sequence_guid") else None))
     raise KeyError(kind)
 
 
